@@ -54,6 +54,31 @@ static Value runT(const Value& script)
     else if (op == "swap") { V& b = *H[st.at("b").s()]; a.swap(b); }
     else if (op == "assignstd") { std::vector<T> s = {(T)3, (T)4}; a = s; }
     else if (op == "reserve") a.reserve(16);
+    else if (op == "helper")
+    {
+      // the in-place helpers of VectorHelper exist for VectorDouble: the other classes get the same transformation
+      // through their own mutating interface, so that the histories stay aligned
+      std::string k = st.at("k").s();
+      if constexpr (std::is_same<V, VectorDouble>::value)
+      {
+        if (k == "vh_fill") VH::fill(a, 5.);
+        else if (k == "vh_addc") VH::addConstant(a, 1.);
+        else if (k == "vh_mulc") VH::multiplyConstant(a, 2.);
+        else if (k == "vh_cumul") VH::cumulateInPlace(a);
+        else if (k == "vh_sortdesc") VH::sortInPlace(a, false);
+        else if (k == "vh_random") VH::simulateGaussianInPlace(a, 50., 1.);
+      }
+      else
+      {
+        size_t n = a.size();
+        if (k == "vh_fill") for (size_t i = 0; i < n; i++) a[i] = (T)5;
+        else if (k == "vh_addc") for (size_t i = 0; i < n; i++) a[i] = a[i] + (T)1;
+        else if (k == "vh_mulc") for (size_t i = 0; i < n; i++) a[i] = a[i] * (T)2;
+        else if (k == "vh_cumul") for (size_t i = 1; i < n; i++) a[i] = a[i] + a[i - 1];
+        else if (k == "vh_sortdesc") { std::vector<T> t(n); for (size_t i = 0; i < n; i++) t[i] = a[i]; std::sort(t.begin(), t.end(), std::greater<T>()); for (size_t i = 0; i < n; i++) a[i] = t[i]; }
+        else if (k == "vh_random") for (size_t i = 0; i < n; i++) a[i] = (T)50;
+      }
+    }
     obs.push(snapshot<V, T>(H));
   }
   return obs;
